@@ -279,6 +279,13 @@ theorem timeout_monotone_false :
     ∃ s op, Reachable Cfg.code s ∧ (step Cfg.code s op).1.d.tcount < s.d.tcount :=
   ⟨run Cfg.code (newRound 5 1 0) [.setTimeout 5], .incTimeout 77 [0], ⟨5, 1, 0, _, rfl⟩, by decide⟩
 
+/-- the other exception the hypotheses of `timeout_monotone_partial` name — negation witness: a count put at the
+largest Go `int` by `SetTimeoutCount` (it comes from a block's `RoundTimeoutCount`) wraps to the smallest one at the
+next `IncrementTimeoutCount` (`tc.count++`). -/
+theorem timeout_wraps_at_max_int :
+    (run Cfg.code (newRound 5 0 0) [.setTimeout 9223372036854775807, .incTimeout 77 [0]]).d.tcount = -9223372036854775808 := by
+  decide
+
 /-! ## VRF shares -/
 
 theorem body_shares (op : Op) (d : D) :
